@@ -61,6 +61,25 @@ PRED_OPS = {"retain", "dedupby", "dedupkey", "dfilter", "rmitem", "resizewith"}
 ITER_OPS = {"drain", "splice", "dfilter", "intoiter", "next", "nextb", "nth", "nthb", "count", "last", "hint",
             "asslice", "cloneit", "dropit", "forget"}
 
+CLONE_OPS = {"clone", "cloneit", "extslice", "extwithin", "resize", "fromslice", "frommut", "macrep", "maclist", "fromstr"}
+
+def user_panic_line(line, toks, p):
+    """did USER code panic in this operation?  (C04 is about panics in callbacks, Clone / PartialEq
+    implementations, iterators and destructors -- not about the library rejecting an argument, which is
+    C11's subject.)  toks: the operation's tokens; p: its parsed trace line"""
+    if p is None or p["out"] != "panic":
+        return False
+    hdr = hrun.header(line)
+    if any("P" in x for x in toks[1:] if x.isalpha()):
+        return True                                     # a scripted panic in a callback / iterator
+    if "dp" in hdr:
+        dp = {x for x in hdr["dp"].split(",") if x}
+        if dp & set(re.findall(r"(?<![\w>])d(\d+)", p["elems"] or "")):
+            return True                                 # a destructor scripted to panic ran here
+    if "cp" in hdr and toks and toks[0] in CLONE_OPS:
+        return True                                     # a Clone scripted to panic may have run here
+    return False
+
 def premise_ok(pid, line, parsed, k):
     """a monitor verdict at operation index k speaks about property pid only if the situation the property is
     about has occurred by then: C04 a panic in user code, C05 a forgotten iterator, C12 a clone, C14 a raw
@@ -68,7 +87,8 @@ def premise_ok(pid, line, parsed, k):
     body = [o.split() for o in line.split("::", 1)[1].split(";") if o.split()]
     upto = body[:k + 1]
     if pid == "C04":
-        if any(p["out"] == "panic" for p in parsed if p["k"] <= k):
+        byk = {p["k"]: p for p in parsed}
+        if any(user_panic_line(line, t, byk.get(j)) for j, t in enumerate(upto)):
             return True
         # the operation did not come back at all (abort of a double panic, crash): it counts when the history
         # scripts panics in user code
